@@ -543,7 +543,16 @@ def run_scan_covers_stack(rec, F):
             d = str(sem.desc_operand(fn, t["args"][0]))
             if "('stack',)" in d and "stack_start" not in d:
                 whole = True
-        if n in ("stack_start", "from_raw_parts_mut", "from_raw_parts", "frame", "split_at_mut", "get_mut", "get_unchecked_mut"):
+        if n in ("from_raw_parts_mut", "from_raw_parts") and t["args"]:
+            # a slice rebuilt by hand: the whole stack iff it starts at the stack's own base pointer and ends at stack_top
+            names0, fields0, _ = sem.adaptor_chain(fn, t["args"][0])
+            d1 = str(sem.desc_operand(fn, t["args"][1])) if len(t["args"]) > 1 else ""
+            if "stack" in fields0 and set(names0) <= {"as_mut_ptr", "as_ptr", "deref_mut", "deref", "as_mut_slice", "as_slice"} and "stack_top" in d1 and "offset_from" in d1 and "stack_start" not in d1:
+                whole = True
+                continue
+            window.append(n)
+            continue
+        if n in ("stack_start", "frame", "split_at_mut", "get_mut", "get_unchecked_mut"):
             window.append(n)
     for bi, si, s in fn.stmts():
         r = s["r"]
